@@ -83,7 +83,7 @@ if len(sys.argv) > 1 and os.path.exists(sys.argv[1]):
         note = ''
         np = f'{V}/neutral/' + f.replace('.patch', '.notes')
         if os.path.exists(np):
-            note = open(np).read().strip().lstrip('# ').replace('|', '/')[:140]
+            note = ' '.join(open(np).read().strip().lstrip('# ').replace('|', '/').split())[:140]
         res = 'silent' if f in ok else '**ALARM** ' + det.get(f, '')
         lines.append(f'| {f} | {note} | {res} |')
     neutral_table = '\n'.join(lines) + f'\n\n{len(ok)} of {len(ok) + len(alarm)} patches leave every check silent.'
